@@ -444,6 +444,62 @@ def check_enforce(pre, op, post):
     return None
 
 
+def arc_mid(st, a):
+    """the point half way along the arc (which side of the chord it bulges to)"""
+    cc = arc_circle(st, a)
+    if cc is None:
+        return None
+    c, R, a0, tta = cc
+    z = complex(math.cos(tta / 2.), math.sin(tta / 2.))
+    m = c + (a0 - c) * z
+    return (m.real, m.imag)
+
+
+def check_arc_images(pre, op, post):
+    """copies / moves of arcs: when the command created no intersection (the number of arcs is the expected one),
+    every image of a selected arc must be an arc of the result: transformed end points AND transformed mid point
+    (a mirrored arc bulges to the mirrored side), same angle, same properties and group"""
+    fs, mode, exact = transform_of(op)
+    if fs is None or mode not in (3, 4):
+        return None
+    k = op[0]
+    copying = k in ("copytranslate", "copyrotate", "mirror")
+    sel = [a for a in pre["arcs"] if a[2]] if mode == 3 else []
+    if mode == 4:
+        return None
+    if not sel:
+        return None
+    expect = len(pre["arcs"]) + (len(sel) * len(fs) if copying else 0)
+    if len(post["arcs"]) != expect:
+        return None
+    sc = max(1.0, scale_of(post))
+    for a in sel:
+        m0 = arc_mid(pre, a)
+        if m0 is None:
+            continue
+        e0 = (pre["nodes"][a[0]][0], pre["nodes"][a[0]][1]); e1 = (pre["nodes"][a[1]][0], pre["nodes"][a[1]][1])
+        for f in fs:
+            fm, f0, f1 = f(m0), f(e0), f(e1)
+            found = False
+            for b in post["arcs"]:
+                mb = arc_mid(post, b)
+                if mb is None:
+                    continue
+                b0 = (post["nodes"][b[0]][0], post["nodes"][b[0]][1]); b1 = (post["nodes"][b[1]][0], post["nodes"][b[1]][1])
+                near = lambda u, v: math.hypot(u[0] - v[0], u[1] - v[1]) <= 1e-9 * sc
+                if near(mb, fm) and ((near(b0, f0) and near(b1, f1)) or (near(b0, f1) and near(b1, f0))):
+                    found = True
+                    if abs(b[4] - a[4]) > 1e-9 * abs(a[4]) or b[3] != a[3] or b[6] != a[6]:
+                        return ("the image of arc (%g,%g)-(%g,%g) lost its angle / group / properties: %r vs %r" %
+                                (e0[0], e0[1], e1[0], e1[1], b[3:], a[3:]))
+                    break
+            if not found:
+                return ("%s of the arc (%g,%g)->(%g,%g) of %g deg: the result has no arc through the transformed end points and the "
+                        "transformed mid point (%.12g,%.12g) -- the image bulges to the wrong side or is missing"
+                        % (k, e0[0], e0[1], e1[0], e1[1], a[4], fm[0], fm[1]))
+    return None
+
+
 def duplicate_from_split(pre, op, post):
     """the duplicated segment pair has an end point that this command created (add commands: a new index;
     commands that rebuild the drawing: a point that is not one of the transformed input points), i.e. the
@@ -536,7 +592,7 @@ def check_step(pre, op, post):
             if dist_pt_seg((x, y), pp[s[0]], pp[s[1]]) < d * (1 - 1e-9):
                 return "new block label is within the snap tolerance of segment %d" % i
     if k in ENFORCE:
-        msg = check_enforce(pre, op, post)
+        msg = check_enforce(pre, op, post) or check_arc_images(pre, op, post)
         if msg:
             return msg
     return None
